@@ -177,7 +177,7 @@ pub fn agree(a: &Group<Cfg>, b: &Group<Cfg>) -> Result<(), String> {
 }
 
 /// C01: what one member encrypts the other decrypts (on clones, so ratchets are not consumed).
-pub fn cross_decrypt(a: &Group<Cfg>, b: &Group<Cfg>) -> Result<(), String> {
+pub fn cross_decrypt(a: &Group<Cfg>, b: &Group<Cfg>, sender_rolled_back: bool) -> Result<(), String> {
     let mut a2 = a.clone();
     let mut b2 = b.clone();
     // pending proposals make the library refuse to send application data (commit required)
@@ -187,6 +187,9 @@ pub fn cross_decrypt(a: &Group<Cfg>, b: &Group<Cfg>) -> Result<(), String> {
     let r = match b2.process_incoming_message(m) {
         // the sender is more than the out-of-order window ahead of this receiver: inconclusive
         Err(mls_rs::error::MlsError::InvalidFutureGeneration(_)) => return Ok(()),
+        // the sender was reloaded from an older snapshot and re-uses a generation this receiver has
+        // already consumed (only the random reuse guard protects that case): inconclusive
+        Err(mls_rs::error::MlsError::KeyMissing(_)) if sender_rolled_back => return Ok(()),
         r => r,
     };
     match r.map_err(|e| format!("peer cannot decrypt: {e:?}"))? {
